@@ -2,6 +2,8 @@ package main
 
 import (
 	"fmt"
+	"os"
+	"path/filepath"
 	"sort"
 	"strings"
 
@@ -112,4 +114,31 @@ func (e *Engine) recordWitness(st *State) {
 	}
 	e.witSeen[key] = true
 	e.witnesses = append(e.witnesses, w)
+}
+
+// noteAssume records the source text of a verifAssume call (part of the claim; copied into the evidence).
+func (e *Engine) noteAssume(x *ssa.Call) {
+	if x == nil || e.assumeTexts == nil {
+		return
+	}
+	pos := e.prog.Fset.Position(x.Pos())
+	if !pos.IsValid() {
+		return
+	}
+	real := pos.Filename
+	if r, ok := e.overlay[pos.Filename]; ok {
+		real = r
+	}
+	if e.srcLines == nil {
+		e.srcLines = map[string][]string{}
+	}
+	lines, ok := e.srcLines[real]
+	if !ok {
+		b, _ := os.ReadFile(real)
+		lines = strings.Split(string(b), "\n")
+		e.srcLines[real] = lines
+	}
+	if pos.Line-1 < len(lines) {
+		e.assumeTexts[filepath.Base(real)+": "+strings.TrimSpace(lines[pos.Line-1])] = true
+	}
 }
